@@ -89,7 +89,7 @@ def worker(inst):
     install()
     sched, theme, prog = inst
     builder = SCHEDULES[sched]
-    tmo = 1500 if os.environ.get("VERIF_TIER", "quick") == "quick" else 30000
+    tmo = 1500 if os.environ.get("VERIF_TIER", "quick") == "quick" else 5000
     out = dict(status="ok", prog=show(prog), label="%s|%s" % (sched, theme), detail="", paths=0, obligations=0, discharged=0,
                nontrivial=False, firings=0, skipped=0, rules={}, inconclusive_firings=0)
     try:
@@ -207,19 +207,19 @@ def programs(tier, seed):
                 rest.append(p)
         if theme == "real":      # every index-by-tensor / index-by-variable shape (the getitem rules' argument layouts)
             chosen += [p for p in rest if p[0] in ("getitem", "getitem_at")]
-        out += [(theme, p) for p in chosen + rest[:40 if tier == "quick" else 400]]
+        out += [(theme, p) for p in chosen + rest[:40 if tier == "quick" else 150]]
         d2 = list(gen.depth2(theme, rng, per_inner=1 if tier == "quick" else 2))
         rng.shuffle(d2)
-        out += [(theme, p) for p in d2[:40 if tier == "quick" else 500]]
+        out += [(theme, p) for p in d2[:40 if tier == "quick" else 150]]
     for sr in SEMIRINGS:
-        out += [("%s/%s" % sr[:2], p) for p in gen_sumproducts(rng, 25 if tier == "quick" else 200, sr[0], sr[1], sr[2], 4 if tier == "quick" else 6)]
-    out += [("sameop:" + op, p) for op, car, p in gen_sameop(rng, 30 if tier == "quick" else 300)]
-    out += [("mixed/nonneg", p) for p in gen_mixed(rng, 30 if tier == "quick" else 300)]
+        out += [("%s/%s" % sr[:2], p) for p in gen_sumproducts(rng, 25 if tier == "quick" else 80, sr[0], sr[1], sr[2], 4 if tier == "quick" else 6)]
+    out += [("sameop:" + op, p) for op, car, p in gen_sameop(rng, 30 if tier == "quick" else 120)]
+    out += [("mixed/nonneg", p) for p in gen_mixed(rng, 30 if tier == "quick" else 120)]
     for sr in SEMIRINGS[:4]:
-        out += [("%s/%s" % sr[:2], p) for p in gen_distributive(rng, 8 if tier == "quick" else 80, sr[0], sr[1], sr[2])]
+        out += [("%s/%s" % sr[:2], p) for p in gen_distributive(rng, 8 if tier == "quick" else 40, sr[0], sr[1], sr[2])]
     c5 = [i for i in c05_instances(tier, seed) if i[0] == "immediate"]
     rng.shuffle(c5)
-    out += [("binders", i[2]) for i in c5[:60 if tier == "quick" else 400]]
+    out += [("binders", i[2]) for i in c5[:60 if tier == "quick" else 150]]
     out += [("real", p) for p in gen.einsum_progs()] + [("real", p) for p in gen.constant_progs()] + [("real", p) for p in gen.nondistributive_progs()] + [("real", p) for p in gen.matmul_progs()] + [("real", p) for p in gen.stack_hetero_progs()] + [("log", p) for p in gen.constant_progs("log")]
     return out
 
@@ -239,7 +239,7 @@ def main():
             # (max|min, mul) distributes on non-negative data only: the distributing passes are exercised on this op
             # pair through the semiring families (non-negative carrier), not through free-form real programs
             scheds = [x for x in SCHEDS if x not in ("unfold", "optimizer")]
-        for s in (scheds if chk.tier != "quick" else rng.sample(scheds, 3)):
+        for s in (rng.sample(scheds, min(5, len(scheds))) if chk.tier != "quick" else rng.sample(scheds, 3)):
             insts.append((s, theme, p))
     chk.map("checks.c02", "worker", insts, chunksize=6)
     fired = collections.Counter()
